@@ -21,7 +21,9 @@ RULE = ("histories `new cap ct` + operations on two strings. Exhaustive box: cap
         "every string of length <= 3 (quick: <= 2 for the wide families) over {a,b,0xC8} as receiver, every string of length <= 2 "
         "over {a,NUL,0xC8} as argument, every overload of every member (pointer+count / C string / iterator pair / view / "
         "sub-view / string / sub-string / char / fill), every index, pos and count in [0,size+1] plus npos plus the default "
-        "argument. Random: seeded histories of 12-40 operations for each of 32 (character type, capacity) pairs - char at "
+        "argument; the same members called with the string itself as argument (s.append(s), s += s, s.append(s,pos,count), "
+        "s.append(s.data()+off,n), s.insert(i,s), s.insert(i,s,pos,count), s.insert(i,s.data()+off,n), s.assign(s), s = s, "
+        "s.assign(s,pos,count), s.assign(s.data()+off,n)) with every pos/count/off/n; erase_if with seven predicates. Random: seeded histories of 12-40 operations for each of 32 (character type, capacity) pairs - char at "
         "0,1,2,3,7,15,16,31,254,255,256 and wchar_t/char8_t/char16_t/char32_t at five capacities each on both sides of the "
         "layout switch - with positions biased to 0, size, size+1, capacity-size and npos. After every operation the return "
         "value and size(), contents and data()[size()]==0 of BOTH strings are compared. A case is non-trivial when it reaches "
@@ -32,12 +34,34 @@ ASSUMPTIONS = ["std::basic_string of libstdc++ 12 is the reference for spec vali
                "calls with len > Capacity are outside the compared domain (all four sides print `pre`)",
                "strings are modelled as unsigned code units; the character type is a parameter of the harness only; wchar_t units "
                "are kept below 2^31 (signed on this platform, same order as unsigned there)",
-               "an operation never receives a pointer into the string it modifies (no self-aliasing arguments)"]
+               "self-aliasing arguments are explored for assign/append/+=/insert (whole string, sub-string, pointer into the "
+               "characters [data(), data()+size()]); replace, the C-string overloads and pointers that include the terminator are "
+               "never called with a pointer into the string they modify"]
 TRUSTED = ["hand model Tetl/C04/Model.lean (+ Tetl/C08/Model.lean for the delegated searches) tied to the source by the correspondence run (R1) on every run",
            "spec Tetl/C04/Spec.lean validated against libstdc++ std::basic_string (R2) on every run"]
 _STEP = ["Tetl.C04.Props.step_rep", "Tetl.C04.Props.inv_step", "Tetl.C04.Props.refines_step", "Tetl.C04.Props.overload_arg_eq"]
-THEOREMS = {op: _STEP for op in ("assign", "opassign", "ctor", "clear", "push_back", "pop_back", "append", "pluseq", "insert",
-                                 "erase", "erase_value", "resize")}
+_ALIAS = _STEP + ["Tetl.C04.Props.self_alias_eq"]
+THEOREMS = {op: _STEP for op in ("ctor", "clear", "push_back", "pop_back", "erase", "erase_value", "resize")}
+THEOREMS.update({op: _ALIAS for op in ("assign", "opassign", "append", "pluseq", "insert")})
+_ARG = ["Tetl.C04.Props.overload_arg_eq", "Tetl.C04.Props.chars_eq"]
+THEOREMS.update({"find": ["Tetl.C04.Props.find_eq"] + _ARG,
+                 "rfind": ["Tetl.C04.Props.rfind_partial", "Tetl.C04.Props.rfind_default_is_zero",
+                           "Tetl.C04.Props.rfind_default_counterexample"] + _ARG,
+                 "find_first_of": ["Tetl.C04.Props.find_first_of_eq"] + _ARG,
+                 "find_first_not_of": ["Tetl.C04.Props.find_first_not_of_eq"] + _ARG,
+                 "find_last_of": ["Tetl.C04.Props.find_last_of_eq"] + _ARG,
+                 "find_last_not_of": ["Tetl.C04.Props.find_last_not_of_eq"] + _ARG,
+                 "starts_with": ["Tetl.C04.Props.starts_with_eq"] + _ARG,
+                 "ends_with": ["Tetl.C04.Props.ends_with_eq"] + _ARG,
+                 "contains": ["Tetl.C04.Props.contains_eq"] + _ARG,
+                 "copy": ["Tetl.C04.Props.copy_eq"],
+                 "at": ["Tetl.C04.Props.at_eq"], "front": ["Tetl.C04.Props.front_eq"], "back": ["Tetl.C04.Props.back_eq"],
+                 "plus": ["Tetl.C04.Props.plus_str_str_eq", "Tetl.C04.Props.plus_str_cstr_eq", "Tetl.C04.Props.plus_str_char_eq",
+                          "Tetl.C04.Props.plus_cstr_str_eq", "Tetl.C04.Props.plus_char_str_eq"],
+                 "erase_if": ["Tetl.C04.Props.erase_if_eq"],
+                 "replace": ["Tetl.C04.Props.replace_overwrites", "Tetl.C04.Props.replace_partial", "Tetl.C04.Props.replace_ptr_partial",
+                             "Tetl.C04.Props.replace_iter_partial", "Tetl.C04.Props.replace_iter_fill_partial",
+                             "Tetl.C04.Props.replace_counterexample", "Tetl.C04.Props.replace_breaks_terminator_counterexample"]})
 THEOREMS.update({"swap": ["Tetl.C04.Props.swap_eq"], "substr": ["Tetl.C04.Props.substr_eq"],
                  "compare": ["Tetl.C04.Props.compare_sign", "Tetl.C04.Props.compare_pos_count_eq",
                              "Tetl.C04.Props.compare_pos_count_pos_count_eq"],
@@ -227,6 +251,30 @@ def exhaustive(g, cap, thorough):
                 if c is not None:
                     q.append("copy obj=0 count=%s" % c + ("" if p is None else " pos=%d" % p))
         g.add(setup(cap, x, y) + q, t + "access")
+    # ---- erase_if
+    for x in xs_all:
+        for pr in ("eq v=97", "ne v=97", "lt v=98", "ge v=98", "eq v=200", "odd", "all", "none"):
+            g.add(setup(cap, x, [98]) + ["erase_if obj=0 pred=%s" % pr, "state obj=0"], t + "erase_if")
+    # ---- self-aliasing: the argument is (a part of) the string that is modified
+    for x in X(True):
+        n = len(x)
+        subs, subvs, ptrs = [], [], []
+        for p2 in range(n + 2):
+            for c2 in counts(n):
+                tail = "pos2=%d" % p2 + ("" if c2 is None else " count2=%s" % c2)
+                subs.append("ov=selfsub " + tail)
+                subvs.append("ov=selfsubv " + tail)
+        for off in range(n + 2):
+            for m in range(n + 2 - off):
+                ptrs.append("ov=selfptr off=%d n=%d" % (off, m))
+        for fam in ("assign", "append"):
+            for sel in ["ov=self"] + subs + ptrs:
+                g.add(setup(cap, x, [98]) + ["%s obj=0 %s" % (fam, sel), "state obj=0", "raw obj=0"], t + fam + "/self")
+        for fam in ("opassign", "pluseq"):
+            g.add(setup(cap, x, [98]) + ["%s obj=0 ov=self" % fam, "state obj=0", "%s obj=0 ov=self" % fam, "state obj=0"], t + fam + "/self")
+        for idx in range(n + 2):
+            for sel in ["ov=self"] + subvs + ptrs:
+                g.add(setup(cap, x, [98]) + ["insert obj=0 idx=%d %s" % (idx, sel), "state obj=0", "raw obj=0"], t + "insert/self")
     # ---- swap, plus, compare, rel: two strings
     for x in xs_all:
         for y in xs_all if thorough else xs_small:
@@ -279,25 +327,105 @@ def exhaustive(g, cap, thorough):
             g.add(setup(cap, x, y) + ["rfind obj=0 ov=cstr s=%s" % L(y)], t + "rfind/default")
             if len(y) == 1:
                 g.add(setup(cap, x, y) + ["rfind obj=0 ov=ch ch=%d s=%s" % (y[0], L(y))], t + "rfind/default")
-    # ---- replace (overwrite-only family, known finding when the lengths differ)
+    # ---- replace (overwrite-only family, known finding when the replacement length differs from min(count, size()-pos));
+    #      counts beyond size()-pos (size()-pos+1 and npos) make the overwrite run past size(): same known class
+    overflow_kept = 0
     for x in X(True):
         for y in ys:
             lit = "s=%s" % L(y)
             for p in range(len(x) + 2):
-                for c in list(range(len(x) - p + 1)) if p <= len(x) else [0]:
-                    variants = [("ov=str pos=%d count=%d" % (p, c), y), ("ov=cstr pos=%d count=%d %s" % (p, c, lit), cstr_of(y)),
-                                ("ov=itstr first=%d last=%d" % (p, p + c), y), ("ov=itcstr first=%d last=%d %s" % (p, p + c, lit), cstr_of(y)),
-                                ("ov=itfill first=%d last=%d count2=%d ch=120" % (p, p + c, c), [120] * c),
-                                ("ov=itfill first=%d last=%d count2=%d ch=120" % (p, p + c, c + 1), [120] * (c + 1))]
-                    for n in range(len(y) + 1):
-                        variants.append(("ov=ptrn pos=%d count=%d %s n=%d" % (p, c, lit, n), y[:n]))
-                        variants.append(("ov=itptrn first=%d last=%d %s n=%d" % (p, p + c, lit, n), y[:n]))
-                    for p2 in range(len(y) + 1):
-                        for c2 in range(len(y) - p2 + 1):
-                            variants.append(("ov=str5 pos=%d count=%d pos2=%d count2=%d" % (p, c, p2, c2), y[p2:p2 + c2]))
+                inside = list(range(len(x) - p + 1)) if p <= len(x) else [0]
+                beyond = [len(x) - p + 1, "npos"] if p <= len(x) else []
+                for c in inside + beyond:
+                    if c in inside:
+                        variants = [("ov=str pos=%d count=%d" % (p, c), y), ("ov=cstr pos=%d count=%d %s" % (p, c, lit), cstr_of(y)),
+                                    ("ov=itstr first=%d last=%d" % (p, p + c), y), ("ov=itcstr first=%d last=%d %s" % (p, p + c, lit), cstr_of(y)),
+                                    ("ov=itfill first=%d last=%d count2=%d ch=120" % (p, p + c, c), [120] * c),
+                                    ("ov=itfill first=%d last=%d count2=%d ch=120" % (p, p + c, c + 1), [120] * (c + 1))]
+                        for n in range(len(y) + 1):
+                            variants.append(("ov=ptrn pos=%d count=%d %s n=%d" % (p, c, lit, n), y[:n]))
+                            variants.append(("ov=itptrn first=%d last=%d %s n=%d" % (p, p + c, lit, n), y[:n]))
+                        for p2 in range(len(y) + 1):
+                            for c2 in range(len(y) - p2 + 1):
+                                variants.append(("ov=str5 pos=%d count=%d pos2=%d count2=%d" % (p, c, p2, c2), y[p2:p2 + c2]))
+                    else:
+                        variants = [("ov=str pos=%d count=%s" % (p, c), y), ("ov=cstr pos=%d count=%s %s" % (p, c, lit), cstr_of(y)),
+                                    ("ov=ptrn pos=%d count=%s %s n=%d" % (p, c, lit, len(y)), y),
+                                    ("ov=str5 pos=%d count=%s pos2=0 count2=%d" % (p, c, len(y)), y)]
                     for sel, repl in variants:
-                        kc = " kc=1" if (p <= len(x) and len(repl) != c) else ""
-                        g.add(setup(cap, x, y) + ["replace obj=0 %s%s" % (sel, kc), "state obj=0"], t + "replace" + ("/known" if kc else ""))
+                        if c == "npos" and p + len(repl) > cap + 1:
+                            # the overwrite leaves the object (heap-buffer-overflow under ASan): keep two such cases per capacity
+                            # only, a sanitizer abort costs a process restart and lib.run_harness gives up after 40 per chunk
+                            if overflow_kept >= 2:
+                                continue
+                            overflow_kept += 1
+                        known = p <= len(x) and replace_known(len(x), p, c, len(repl))
+                        g.add(setup(cap, x, y) + ["replace obj=0 %s" % sel, "state obj=0"], t + "replace" + ("/known" if known else ""))
+
+
+def replace_known(size, pos, count, repl_len):
+    """the class of F-C04-replace-overwrites-only: the replacement does not have the length of the replaced range"""
+    c = 2 ** 64 - 1 if count == "npos" else count
+    return repl_len != min(c, size - pos)
+
+
+def _kv(line):
+    return dict(t.split("=", 1) for t in line.split(" ")[1:] if "=" in t)
+
+
+def _lst(txt):
+    txt = txt.strip("[]")
+    return [int(v) for v in txt.split(",")] if txt else []
+
+
+def replace_class(lines, k):
+    """Recompute, from the case text alone, whether the `replace` line k is in the known class.  Only prefixes made of
+    `new` / `assign ov=ptrn` / `state` / `raw` lines are understood (the exhaustive replace cases and the finding's witness);
+    anything else returns False, so a failing replace elsewhere is reported as a violation."""
+    cur = [[], []]
+    for ln in lines[:k]:
+        op = ln.split(" ")[0]
+        a = _kv(ln)
+        if op == "new":
+            cur = [[], []]
+        elif op == "assign" and a.get("ov") == "ptrn":
+            cur[int(a.get("obj", 0))] = _lst(a["s"])[: int(a["n"])]
+        elif op in ("state", "raw"):
+            pass
+        else:
+            return False
+    a = _kv(lines[k])
+    ov = a.get("ov", "")
+    obj = int(a.get("obj", 0))
+    x, o = cur[obj], cur[1 - obj]
+    num = lambda key, d=0: (2 ** 64 - 1 if a[key] == "npos" else int(a[key])) if key in a else d
+    if ov.startswith("it"):
+        f, la = num("first"), num("last")
+        if f > la or la > len(x):
+            return False
+        p, c = f, la - f
+    else:
+        p, c = num("pos"), num("count")
+        if p > len(x):
+            return False
+    if ov in ("str", "itstr"):
+        rl = len(o)
+    elif ov == "str5":
+        p2, c2 = num("pos2"), num("count2", 2 ** 64 - 1)
+        if p2 > len(o):
+            return False
+        rl = min(c2, len(o) - p2)
+    elif ov in ("ptrn", "itptrn"):
+        rl = num("n")
+        if rl > len(_lst(a.get("s", "[]"))):
+            return False
+    elif ov in ("cstr", "itcstr"):
+        rl = len(cstr_of(_lst(a.get("s", "[]"))))
+    elif ov == "itfill":
+        rl = num("count2")
+    else:
+        return False
+    return replace_known(len(x), p, c, rl)
 
 
 class Sim:
@@ -390,6 +518,22 @@ def history(rnd, ct, cap, length):
             return "ov=%s pos2=%d" % (ov, p2), (None if p2 > len(o) else o[p2:])
         return "ov=%s pos2=%d count2=%s" % (ov, p2, c2), d
 
+    def selfsel(k, fam):
+        """the string itself (or a part of it) as argument; returns (text, denoted)"""
+        me = sim.s[k]
+        m = len(me)
+        ov = "self" if fam in ("pluseq", "opassign") else rnd.choice(["self", "sub", "ptr"])
+        if ov == "self":
+            return "ov=self", list(me)
+        if ov == "sub":
+            p2 = posn(m)
+            c2 = cnt(m)
+            d = None if p2 > m else (me[p2:] if c2 == "npos" else me[p2:p2 + c2])
+            return "ov=%s pos2=%d count2=%s" % ("selfsubv" if fam == "insert" else "selfsub", p2, c2), d
+        off = rnd.randint(0, m)
+        ln = rnd.randint(0, m - off)
+        return "ov=selfptr off=%d n=%d" % (off, ln), me[off:off + ln]
+
     for _ in range(length):
         k = 0 if rnd.random() < 0.75 else 1
         s = sim.s[k]
@@ -405,7 +549,10 @@ def history(rnd, ct, cap, length):
                 lines.append("%s obj=%d ov=copy" % (fam, k))
                 sim.assign(k, sim.s[1 - k])
             else:
-                sel, d = argsel(k, fam, chars(min(some_len(), cap + 1)))
+                if fam != "ctor" and rnd.random() < 0.12:
+                    sel, d = selfsel(k, fam)
+                else:
+                    sel, d = argsel(k, fam, chars(min(some_len(), cap + 1)))
                 lines.append("%s obj=%d %s" % (fam, k, sel))
                 if d is not None:
                     sim.assign(k, d)
@@ -421,7 +568,7 @@ def history(rnd, ct, cap, length):
                     lines.append("append obj=%d ov=fill count=%s ch=%d" % (k, c, ch))
                     sim.append(k, [ch] * (cap + 1 if c == "npos" else c))
             else:
-                sel, d = argsel(k, fam, chars(some_len()))
+                sel, d = selfsel(k, fam) if rnd.random() < 0.15 else argsel(k, fam, chars(some_len()))
                 lines.append("%s obj=%d %s" % (fam, k, sel))
                 if d is not None:
                     sim.append(k, d)
@@ -434,7 +581,7 @@ def history(rnd, ct, cap, length):
                 lines.append("insert obj=%d idx=%d ov=fill count=%d ch=%d" % (k, idx, c, ch))
                 sim.insert(k, idx, [ch] * c)
             else:
-                sel, d = argsel(k, "insert", chars(some_len()))
+                sel, d = selfsel(k, "insert") if rnd.random() < 0.15 else argsel(k, "insert", chars(some_len()))
                 lines.append("insert obj=%d idx=%d %s" % (k, idx, sel))
                 if d is not None:
                     sim.insert(k, idx, d)
@@ -456,10 +603,17 @@ def history(rnd, ct, cap, length):
                 la = rnd.choice([n, f, rnd.randint(f, n)])
                 lines.append("erase obj=%d ov=range first=%d last=%d" % (k, f, la))
                 sim.s[k] = s[:f] + s[la:]
-            else:
+            elif rnd.random() < 0.5:
                 c = rnd.choice(alpha)
                 lines.append("erase_value obj=%d ch=%d" % (k, c))
                 sim.s[k] = [u for u in s if u != c]
+            else:
+                c = rnd.choice(alpha)
+                pr = rnd.choice(["eq", "ne", "lt", "ge", "odd", "all", "none"])
+                lines.append("erase_if obj=%d pred=%s v=%d" % (k, pr, c))
+                f = {"eq": lambda u: u == c, "ne": lambda u: u != c, "lt": lambda u: u < c, "ge": lambda u: u >= c,
+                     "odd": lambda u: u % 2 == 1, "all": lambda u: True, "none": lambda u: False}[pr]
+                sim.s[k] = [u for u in s if not f(u)]
         elif r < 0.58:
             v = rnd.random()
             if v < 0.35:
@@ -592,7 +746,7 @@ def classify(case, k, row):
     op = ln.split(" ")[0]
     if op == "rfind" and " pos=" not in ln:
         return "F-C04-rfind-default-pos"
-    if op == "replace" and " kc=1" in ln:
+    if op == "replace" and replace_class(case.lines, k):
         return "F-C04-replace-overwrites-only"
     return None
 
@@ -610,16 +764,23 @@ LEVEL_TEXT = ("The Lean 4 model of basic_inplace_string mirrors both storage lay
               "erase = rotate+shrink, swap = swap_ranges+2 set_size, all through checked buffer reads/writes. Theorems (no bound on "
               "capacity, length or history): every modelled mutating member preserves size<=capacity and buf[size]=NUL from any "
               "state satisfying it, never touches memory outside the Capacity+1 units, and - when the std result fits - leaves "
-              "exactly the std::string contents and return value; compare returns the sign of the lexicographic order. The model "
+              "exactly the std::string contents and return value; compare returns the sign of the lexicographic order; every "
+              "overload of find/rfind(with pos)/find_first_of/find_first_not_of/find_last_of/find_last_not_of/starts_with/ends_with/"
+              "contains (with the defaults written in the header) returns the declarative std result by composition with the C08 "
+              "string_view theorems; copy, operator[], front, back, the five operator+ and erase_if(pred) for every predicate "
+              "likewise; self-aliasing calls of assign/append/+=/insert (loops that read the buffer they write) behave like the "
+              "call with an independent copy of the argument. The model "
               "is tied to the current source on every run: model, implementation (ASan/UBSan, each string in its own heap block), "
               "declarative spec and libstdc++ execute the same histories (exhaustive at capacities 3 and 16, random for 32 "
               "character-type x capacity pairs) and are compared after every operation.")
 LEVEL_NOTE = ("Trusted: Lean kernel + propext/Classical.choice/Quot.sound; fidelity of the hand model outside the explored inputs; "
               "g++-12/ASan/UBSan; libstdc++ as oracle for spec validation. Members listed in coverage.correspondence_only are "
               "modelled and compared on every run but have no Lean theorem yet. The replace family (overwrites only) and the "
-              "default pos of rfind are known findings; self-aliasing arguments are not explored.")
-CORRESPONDENCE_ONLY = ["replace family (known finding: overwrites only)",
-                       "find/rfind/find_first_of/find_first_not_of/find_last_of/find_last_not_of, starts_with/ends_with/contains "
-                       "(delegation to the C08 string_view model incl. strings::find wrap-around and the pos<size() guard of find_first_of)",
-                       "copy(dest,count,pos)", "operator[]/front/back",
-                       "operator+ (constructor + append; follows from the proved members, not stated)"]
+              "default pos of rfind are known findings (counterexample theorems; rfind_partial covers every call with a pos, replace_*_partial "
+              "every replace whose replacement has the length of the replaced range, replace_overwrites says what the other calls with "
+              "count <= size()-pos do). replace with count > size()-pos (count = size()-pos+1 and npos are generated; when the replacement is "
+              "longer than size()-pos the overwrite runs past size(): replace_breaks_terminator_counterexample) is compared on every run "
+              "but has no positive theorem; on a line that hits a known finding only impl-vs-spec is evaluated (lib.evaluate stops at the "
+              "first relation that fails), so there the model's mirror of the defect is checked by the counterexample theorems only.")
+CORRESPONDENCE_ONLY = ["replace(pos, count, …) with count > size()-pos (wrapped end pointer of str_replace; part of the known finding "
+                       "F-C04-replace-overwrites-only when the lengths differ)"]
